@@ -48,6 +48,8 @@ pub mod client;
 pub mod node_session;
 #[cfg(slawlor_ractor_verif)]
 pub mod verif;
+#[cfg(slawlor_ractor_verif)]
+pub mod verif_auth;
 use std::cmp::Ordering;
 use std::collections::hash_map::Entry;
 use std::collections::{HashMap, HashSet};
